@@ -1,3 +1,6 @@
+import Hannibal.Props.C10QCurrent
 import Hannibal.Props.C10Current
 #print axioms Hannibal.C10_holds
 #print axioms Hannibal.C10_current
+#print axioms Hannibal.C10q_holds
+#print axioms Hannibal.C10q_current
